@@ -574,3 +574,67 @@ Proof.
   - rp_range_fin. split; [|repeat split; lia].
     apply rp_lor_range; lia.
 Qed.
+
+Lemma rp_rollback_range : forall v s, rp_in_range s -> rp_in_range (rp_rollback v s).
+Proof.
+  intros v s (Hw & Hl & Hrw & Hrl). unfold rp_rollback.
+  destruct (rp_v_rbflag v).
+  - destruct (rp_rb_win s =? 0); rp_range_fin; repeat split; lia.
+  - destruct (rp_rb_win s =? 0); cbn [rp_rb_last rp_win rp_rb_win rp_initial rp_undef];
+      destruct (rp_rb_last s =? 0); rp_range_fin; repeat split; lia.
+Qed.
+
+Lemma rp_arm_range : forall v W s seq,
+  0 <= seq -> rp_in_range s -> rp_in_range (snd (rp_arm v W s seq)).
+Proof.
+  intros v W s seq Hseq Hr. unfold rp_arm.
+  pose proof (rp_validate_range v W s seq Hseq Hr) as H.
+  destruct (rp_validate v W s seq) as [ok s1]. cbn [snd] in H. destruct ok; exact H.
+Qed.
+
+Lemma rp_recv_range : forall v W b12 s m,
+  0 <= rp_m_seq m < 2 ^ 64 -> rp_in_range s -> rp_in_range (snd (rp_recv v W b12 s m)).
+Proof.
+  intros v W b12 s m Hseq Hr. unfold rp_recv.
+  assert (H1 : rp_in_range (snd (if rp_initial s then (true, s)
+                                  else rp_validate v W s (rp_m_seq m)))).
+  { destruct (rp_initial s); [exact Hr | apply rp_validate_range; [lia | exact Hr]]. }
+  destruct (if rp_initial s then (true, s) else rp_validate v W s (rp_m_seq m)) as [ok s1].
+  cbn [snd] in H1.
+  destruct ok; cbn [negb]; [|exact H1].
+  set (s2 := if rp_v_nooverwrite v then s1 else _).
+  assert (H2 : rp_in_range s2).
+  { subst s2. destruct (rp_v_nooverwrite v); [exact H1|].
+    destruct H1 as (Hw & Hl & Hrw & Hrl). rp_range_fin. repeat split; lia. }
+  destruct (rp_m_auth m).
+  - destruct (rp_initial s2); [|exact H2].
+    destruct b12.
+    + destruct (rp_m_echo m); [exact H2 | apply rp_arm_range; [lia | exact H2] | exact H2].
+    + destruct (rp_v_arm v); [apply rp_arm_range; [lia | exact H2] | exact H2].
+  - apply rp_rollback_range. exact H2.
+Qed.
+
+(* whatever the variant, the model never leaves the value range of the C fields: the
+   arithmetic of the model is the arithmetic of the uint64_t fields *)
+Theorem rp_run_range : forall v W b12 h s,
+  Forall (fun m => 0 <= rp_m_seq m < 2 ^ 64) h -> rp_in_range s ->
+  rp_in_range (snd (rp_run v W b12 s h)).
+Proof.
+  intros v W b12 h. induction h as [|m t IH]; intros s Hh Hr.
+  - exact Hr.
+  - inversion Hh as [|? ? Hm Ht]; subst. cbn [rp_run].
+    pose proof (rp_recv_range v W b12 s m Hm Hr) as H1.
+    destruct (rp_recv v W b12 s m) as [r s1]. cbn [snd] in H1.
+    specialize (IH s1 Ht H1).
+    destruct (rp_run v W b12 s1 t) as [rs s2]. exact IH.
+Qed.
+
+Lemma rp_init_range : rp_in_range rp_init.
+Proof. unfold rp_in_range, rp_init; cbn [rp_win rp_last rp_rb_win rp_rb_last]. lia. Qed.
+
+(* the verdicts of the repaired code are those of the RFC 8613 7.4 window, for every history *)
+Theorem rp_window_exact : forall W b12 h,
+  fst (rp_run rp_fixed W b12 rp_init h) = fst (rp_abs_run W b12 rp_abs_init h).
+Proof.
+  intros W b12 h. exact (proj1 (rp_run_refines W b12 h rp_init rp_abs_init rp_R_init)).
+Qed.
